@@ -7,13 +7,20 @@
    * after the scan: missing ftyp/moov/mdat is MissingRequiredBox; "nothing to do" is returned iff the (last)
      moov starts before the first mdat; otherwise a rewrite is attempted;
    * an ftyp payload shorter than 8 bytes is TruncatedBox.
-  The full equivalence `accepted ↔ Rules` over all layouts is evaluated on the real code by `Spec_C05` for
-  every generated case (exhaustive top-level layouts up to length 4/5 over a 9-letter alphabet, header
-  pathologies, every moov-tree rule broken in turn, all truncation points of selected files); its proof by
-  induction over box descriptors is future work (DESIGN.md).
+   * `C05_accept_top_rules` (soundness of the top-level rules, for EVERY input, configuration and cursor kind): a
+     returned result means that the INDEPENDENT walker finds a clean sequence of complete top-level boxes in which only
+     free/skip precede the single ftyp, the ftyp payload has 8..1024 bytes and lists the isom brand, every box is
+     ftyp/moov/mdat/free/skip/meta/meco, at least one moov (payload within max_metadata_size) and one mdat exist and
+     every mdat lies in the one media run; and "no metadata" is returned exactly when the last moov starts before the
+     first mdat.  Proved with the relational program logic of Lemmas/Tri.lean (Lemmas/ScanRel.lean, TopRel.lean).
+  The rest of `accepted ↔ Rules` (the moov-tree part of the rules, and the converse direction: every file meeting
+  the rules is accepted unless a rewrite overflows) is evaluated on the real code by `Spec_C05` for every generated
+  case (exhaustive top-level layouts up to length 4/5 over a 9-letter alphabet, header pathologies, every
+  moov-tree rule broken in turn, all truncation points of selected files).
 -/
 import MediaSan.Mp4.Sanitize
 import MediaSan.Generated.Mp4Consts
+import MediaSan.Lemmas.TopRel
 namespace MediaSan.Props.C05
 open MediaSan MediaSan.Mp4
 
@@ -165,6 +172,42 @@ theorem C05_ftyp_len (b : Bytes) :
     unfold parseFtyp
     rw [if_neg (by omega), if_neg (by omega)]
     exact ⟨_, rfl⟩
+
+/-- Soundness of the documented top-level rules: nothing outside them is accepted — for every stream, configuration
+    and kind of cursor.  `RulesTop` is `Rules` of Spec/Mp4Rules.lean without the moov-tree clause of `moovOk` (whose
+    payload bound it keeps); the walker's verdict `clean` is the "sequence of complete top-level boxes". -/
+theorem C05_accept_top_rules (s : Stream) (kind : SkipKind) (cfg : Config) (r : Sanitized)
+    (h : Mp4.sanitize s kind cfg = .ok r) :
+    ∃ bs, Spec.Mp4Walk.walkAll s 0 s.len cfg.cumulativeMdatBoxSize = .clean bs ∧
+      RulesTop s ⟨cfg.maxMetadataSize, cfg.cumulativeMdatBoxSize⟩ bs ∧
+      (∃ m d, Spec.Mp4Rules.lastMoov bs = some m ∧ Spec.Mp4Rules.firstMdat bs = some d ∧
+        (r.metadata = none ↔ m.offset < d.offset)) := by
+  have hs := sanitizeP_rel2 s kind cfg (fuelFor s)
+  unfold Tri at hs
+  simp only [Mp4.sanitize, Mp4.sanitizeWith, run_eq_runF] at h
+  cases hr : (sanitizeP cfg (fuelFor s)).runF (idealOps s kind) 0 with
+  | ok x =>
+    obtain ⟨a, p⟩ := x
+    rw [hr] at hs h
+    cases a with
+    | none => simp [Outcome.fst] at h
+    | some r' =>
+      simp only [Outcome.fst, Outcome.ok.injEq] at h
+      subst h
+      exact hs r' rfl
+  | parseErr e => rw [hr] at h; simp [Outcome.fst] at h
+  | ioErr k => rw [hr] at h; simp [Outcome.fst] at h
+  | panic site => rw [hr] at h; simp [Outcome.fst] at h
+  | outOfFuel => rw [hr] at h; simp [Outcome.fst] at h
+
+/-- "no metadata" in the Spec's words: `NoMetadata` holds of the input exactly when the model returns none -/
+theorem C05_nometadata_iff (s : Stream) (kind : SkipKind) (cfg : Config) (r : Sanitized)
+    (h : Mp4.sanitize s kind cfg = .ok r) :
+    (r.metadata = none ↔ Spec.Mp4Rules.NoMetadata s ⟨cfg.maxMetadataSize, cfg.cumulativeMdatBoxSize⟩ = true) := by
+  obtain ⟨bs, hw, _, m, d, hm, hd, hiff⟩ := C05_accept_top_rules s kind cfg r h
+  unfold Spec.Mp4Rules.NoMetadata Spec.Mp4Rules.top
+  simp only [hw, Spec.Mp4Walk.Walk.boxes, hm, hd, decide_eq_true_eq]
+  exact hiff
 
 /-- The constants the model uses are the ones in the source (extracted on every run): the ftyp limit, the
     default metadata limit, the compatible brand and the reader's look-ahead. -/
